@@ -1194,6 +1194,49 @@ func c04RelativeUnits(c *core.Check) {
 		r8.Cond(fromParent, "fontSize: em/ex are relative to the parent's font size", p.Pos(call.Pos()), "font-size argument of length_ derives from parentStyle.GetFontSize() / InitialValues.GetFontSize()", "font-size argument does not derive from the parent's computed font size")
 	})
 	r8.Cond(nCalls >= 1, "fontSize calls length_", p.Pos(fsz.Pos()), fmt.Sprint(nCalls), "no call to length_ in the font-size computer")
+	// a percentage font-size is a percentage of the parent's font size
+	isParentFS := func(x ssa.Value) bool {
+		if cc, ok := x.(*ssa.Call); ok {
+			if cc.Common().IsInvoke() && cc.Common().Method.Name() == "GetFontSize" && isParentStyleLoad(cc.Common().Value) {
+				return true
+			}
+			if callee := cc.Common().StaticCallee(); callee != nil && callee.Name() == "GetFontSize" && len(cc.Call.Args) == 1 {
+				if u, ok := cc.Call.Args[0].(*ssa.UnOp); ok {
+					if g, ok := u.X.(*ssa.Global); ok && g.Name() == "InitialValues" {
+						return true
+					}
+				}
+			}
+		}
+		return false
+	}
+	nPerc := 0
+	core.Instrs(fsz, func(in ssa.Instruction) {
+		mul, ok := in.(*ssa.BinOp)
+		if !ok || mul.Op != token.MUL {
+			return
+		}
+		isValue := func(v ssa.Value) bool {
+			u, ok := v.(*ssa.UnOp)
+			if !ok {
+				return false
+			}
+			fa, ok := u.X.(*ssa.FieldAddr)
+			return ok && core.FieldName(fa) == "Value"
+		}
+		var other ssa.Value
+		switch {
+		case isValue(mul.X):
+			other = mul.Y
+		case isValue(mul.Y):
+			other = mul.X
+		default:
+			return
+		}
+		nPerc++
+		r8.Cond(core.DerivesFrom(other, isParentFS), "fontSize: a percentage is relative to the parent's font size", p.Pos(mul.Pos()), "value × parentStyle.GetFontSize()", "the percentage is not multiplied by the parent's computed font size")
+	})
+	r8.Cond(nPerc >= 1, "fontSize multiplies the percentage", p.Pos(fsz.Pos()), fmt.Sprint(nPerc), "no product value × font size in the font-size computer")
 }
 
 // parentNilGuard: every invoke through a load of ComputedStyle.parentStyle must be nil-guarded.
